@@ -94,6 +94,21 @@ def ext_call(eng, st, name, args, kwargs, node):
         f, ok = (smt.b64d, smt.b64_ok) if short == "b64decode" else (smt.b64ud, smt.b64u_ok)
         eng.implicit_error(st, ok(x.t), "ValueError", node, "binascii.Error")
         return [(st, VSeq(f(x.t), "bytes"))]
+    if name == "random.seed":
+        # the generator state becomes a function of the seed: later draws are seeded_bits(seed, nbits, k)
+        st.env["rng_seed"] = VInt(eng.as_int(st, args[0], node))
+        st.env["rng_seeded_calls"] = VInt(0)
+        eng.fr.assumed_used.add("random.seed(s); random.getrandbits(n): the k-th draw after seeding is a function seeded_bits(s, n, k) "
+                                "in [0, 2**n) (determinism of the Mersenne Twister)")
+        return [(st, VNone())]
+    if name in ("random.getrandbits",) and "rng_seed" in st.env:
+        n = eng.as_int(st, args[0], node)
+        k_ = st.env["rng_seeded_calls"].t
+        r = smt.seeded_bits(st.env["rng_seed"].t, n, k_)
+        st.env["rng_seeded_calls"] = VInt(k_ + 1)
+        if z3.is_int_value(n):
+            st.assume(0 <= r, r < 2 ** n.as_long())
+        return [(st, VInt(r))]
     if name in ("random.getrandbits",):
         n = eng.as_int(st, args[0], node)
         if "rng_calls" in st.env and z3.is_int_value(n) and n.as_long() == 32:
